@@ -859,3 +859,11 @@ def agree(impl, model, req=None):
         gm, _ = split_impl(model)
         return gi[:hz] == gm[:hz]
     return False
+
+
+def model_request(req, impl):
+    """VERIF_GG_REPAIRED=1 selects the model of the code with the repairs proposed for F32/F33 applied (used to test the
+    candidate patch on a scratch copy; never derived from the implementation's answer)"""
+    if os.environ.get("VERIF_GG_REPAIRED") == "1":
+        return "val @repaired " + req[4:]
+    return req
